@@ -9,7 +9,7 @@ from .. import gen
 
 LEVEL = 'exploration'
 RULE = ("Window size k in 1..8 (thorough ..64) and float streams of length up to 4k+3 (so beyond k and beyond 2k by construction); "
-        "after EVERY update mean/var/std/get()/call are compared with NumPy statistics of values[-min(n,k):] within "
+        "after every update - or, in part of the cases, only at SPARSE read positions - mean/var/std/get()/call are compared with NumPy statistics of values[-min(n,k):] within "
         "8*k*eps*max|v| (squared for var). Construction itself is part of the property: an exception in the constructor or in "
         "update is a violation. Non-trivial: n >= 2k+1 with pairwise distinct values; distinct by case digest.")
 ASSUMPTIONS = ["only the installed NumPy (2.x) can be exercised for 'supported NumPy versions'",
@@ -29,9 +29,12 @@ def run_case(case):
             'bool': lambda v: bool(round(v) % 2)}
     typed = [conv[kinds[i % len(kinds)]](v) for i, v in enumerate(vals)]
     vals = [float(v) for v in typed]          # the values as supplied (after the caller's own conversion)
+    reads = case.get('reads') or [1]
     for n in range(1, len(vals) + 1):
         try:
             t.update(typed[n - 1])
+            if not reads[n % len(reads)] and n < len(vals):
+                continue          # no statistic is read at this position (reads may be sparse)
             got = {'mean': t.mean, 'var': t.var, 'std': t.std, 'get': t.get(), 'call': t()}
         except Exception as e:
             return Result(False, key='C11:use', detail=f'k={k}, update {n} raised {type(e).__name__}: {e}')
@@ -63,12 +66,16 @@ def cases(draw, kmax):
         base = draw(st.lists(st.integers(-10 ** 6, 10 ** 6), min_size=n, max_size=n, unique=True))
         scale = draw(st.sampled_from([1.0, 0.5, 1e-3, 1e3, 0.1]))
         vals = [b * scale for b in base]
+    elif draw(st.integers(0, 3)) == 0:
+        # magnitude jumps: the tolerance is relative to the values IN THE WINDOW, so what left the window must not leave a trace
+        mags = [draw(st.sampled_from([1e8, 1.0, 1e-8, 1e4])) for _ in range(4)]
+        vals = [draw(st.integers(1, 999)) / 1000.0 * mags[(4 * i) // max(n, 1)] for i in range(n)]
     else:
         vals = draw(st.lists(st.one_of(gen.finite_float(1e6), st.integers(-5, 5).map(float)), min_size=n, max_size=n))
     # the supplied values are ints, floats and NumPy scalars in any mixture ("int or float")
     kinds = draw(st.sampled_from([['float'], ['float'], ['int', 'float'], ['int', 'int', 'float', 'f32'], ['f32', 'float'], ['i64', 'f64', 'float'],
                                   ['bool', 'float', 'int']]))
-    return {'k': k, 'values': vals, 'kinds': kinds}
+    return {'k': k, 'values': vals, 'kinds': kinds, 'reads': draw(st.sampled_from([[1], [1], [1, 0], [0, 0, 1], [0, 0, 0, 0, 1], [1, 0, 0, 0, 0, 0, 0]]))}
 
 
 SUBS = {'window': run_case}
